@@ -813,3 +813,64 @@ theorem tx_model_differs_from_accounting_model_by_overshoot_witness :
   ⟨by decide +kernel, by decide +kernel, by decide +kernel, fun g s h => accounting_chunk_within_limit g 500 s h⟩
 
 end CkbVerif.C05
+
+/-! ### F20 pinned down: servable IO is left only by the early return -/
+
+namespace CkbVerif.C05
+open CkbVerif.SchedBook CkbVerif.SchedTx
+
+/-- **iterate_outer_ok_leaves_no_servable_io.** Under the ownership invariant, a scheduler iteration
+that returns `Ok(remaining)` leaves NO servable pipe IO behind: between two iterations of an
+uninterrupted `run` every servable read / write has been served. With
+`iterateOuter_early_return_skips_process_io` and `checked_sub_before_process_io_deadlocks` this pins
+F20 down: the only way a state with servable IO is ever left is the early `CyclesExceeded` return. -/
+theorem iterate_outer_ok_leaves_no_servable_io (ev : Ev) (limit : Nat) (s s' : Sch) (rem : Nat)
+    (hi : IoInv s) (hl : ev.msgs.length ≤ 1) (hs : ∀ m ∈ ev.msgs, chooseVm s = some m.sender)
+    (h : iterateOuter ev limit s = (s', .ok rem)) : servableIo s' = false := by
+  have i1 := iterateInner_inv ev s hi hl hs
+  unfold iterateOuter at h
+  rcases hii : iterateInner ev s with ⟨s1, r⟩
+  rw [hii] at h i1
+  simp only at h i1
+  split at h
+  · split at h
+    · cases h
+    · have i3 : IoInv ({ s1 with total := s1.total + s1.iter, iter := 0 } : Sch) := IoInv.congr (s := s1) rfl rfl rfl i1
+      split at h
+      · cases h
+      · rename_i s4 hio
+        split at h
+        · cases h
+        · simp only [Prod.mk.injEq] at h
+          rw [← h.1]
+          exact process_io_leaves_no_servable_io _ s4 i3 hio
+  · cases h
+
+/-- **iterate_outer_within_limit_serves_io.** More generally, on EVERY path of `iterate_outer` on
+which the iteration's charge stays within the limit — success, and also a VM that stopped with
+`CyclesExceeded` / `Pause` / an error — `process_io` has run, and (unless `process_io` itself
+failed) the state that is left, which is the state a suspension then records, has no servable IO. -/
+theorem iterate_outer_within_limit_serves_io (ev : Ev) (limit : Nat) (s : Sch)
+    (hi : IoInv s) (hl : ev.msgs.length ≤ 1) (hs : ∀ m ∈ ev.msgs, chooseVm s = some m.sender)
+    (hfit : (iterateInner ev s).1.total + (iterateInner ev s).1.iter < SchedBook.U64)
+    (hle : (iterateInner ev s).1.iter ≤ limit) :
+    servableIo (iterateOuter ev limit s).1 = false ∨
+      ∃ e, processIo { (iterateInner ev s).1 with
+            total := (iterateInner ev s).1.total + (iterateInner ev s).1.iter, iter := 0 } = .error e := by
+  have i1 := iterateInner_inv ev s hi hl hs
+  unfold iterateOuter
+  rcases hii : iterateInner ev s with ⟨s1, r⟩
+  rw [hii] at i1 hfit hle
+  simp only at i1 hfit hle ⊢
+  have hnot : ¬ limit < s1.iter := by omega
+  simp only [hfit, if_true, hnot, if_false]
+  have i3 : IoInv ({ s1 with total := s1.total + s1.iter, iter := 0 } : Sch) := IoInv.congr (s := s1) rfl rfl rfl i1
+  cases hio : processIo { s1 with total := s1.total + s1.iter, iter := 0 } with
+  | error e => exact .inr ⟨e, rfl⟩
+  | ok s4 =>
+    left
+    have := process_io_leaves_no_servable_io _ s4 i3 hio
+    simp only
+    split <;> exact this
+
+end CkbVerif.C05
